@@ -2,7 +2,7 @@
 # Developer tool: blind evaluation of round-3 candidates on a scratch checkout (WCVERIF_DEV_REPO), leaving /repo alone.
 # usage: round3.sh "C02 C04 ..."   (appends to /tmp/r3_results.txt; logs /tmp/r3_<ID>_<m>.log)
 # /tmp/scratch/prefix.diff, when present, is applied first (a pending fix: commit the checks are run on top of).
-out=/tmp/r3_results.txt
+out=${R3OUT:-/tmp/r3_results.txt}
 R=/tmp/devrepo2
 for p in $1; do for m in mut1 mut2; do
   d=/tmp/wt3/out/$p/$m; [ -f $d/patch.diff ] || { echo "$p $m MISSING" >> $out; continue; }
